@@ -432,9 +432,9 @@ def run(ctx):
     for p in function_paths(etd.node):
         cs = [(U(s[1]), s[2]) for s in p if s[0] == "cond"]
         sts = [U(s[1]) for s in p if s[0] == "stmt"]
-        if ("not transformed", True) in cs and "array = klass.transform(array)" in sts:
+        if ("transformed", False) in cs and "array = klass.transform(array)" in sts:
             okx = True
-        if ("not transformed", False) in cs and any("transform(" in t for t in sts):
+        if ("transformed", True) in cs and any("transform(" in t for t in sts):
             okx = False
     ctx.check(okx, "C15.c", "extract_transformed_data", "klass.transform applied exactly when not transformed",
               "extract_transformed_data does not transform exactly when `transformed` is false", etd.where)
